@@ -476,6 +476,8 @@ def replay_vjp(cfg, env, tol=1e-5):
     except NonSmooth as e:
         return False, str(e)
     rhs = cdot(g, unflat_like(fd, g))
+    if math.isnan(rhs) or math.isinf(rhs):
+        return False, "NumPy's own function is not finite here (not a regular point)"
     scale = max(1.0, abs(lhs), abs(rhs))
     bad = (math.isnan(lhs) or math.isinf(lhs) or abs(lhs - rhs) > tol * scale * 10)
     return bad, "<vjp(g),d>=%.9g  <g,J d>(finite difference of NumPy's function)=%.9g" % (lhs, rhs)
@@ -496,7 +498,7 @@ def float_probe(cfg, out, mode):
             rep, info = (replay_vjp if mode == "vjp" else replay_jvp)(cfg, env, tol=1e-3)
         except Exception as e:
             return
-        if "regular point" in info or "raised" in info:
+        if "regular point" in info or "raised" in info or "not finite" in info:
             continue
         n += 1
         if not rep:
@@ -749,6 +751,8 @@ def replay_jvp(cfg, env, tol=1e-5):
         fd = float_dir_deriv(cfg, env)
     except NonSmooth as e:
         return False, str(e)
+    if any(math.isnan(b) or math.isinf(b) for b in fd):
+        return False, "NumPy's own function is not finite here (not a regular point)"
     tf = []
     for e_t, e_y in zip(leaves(tan), leaves(y)):
         e_t = complex(e_t)
